@@ -22,6 +22,7 @@ func init() {
 	register(&Rule{ID: "C18.R5", Prop: "C18", Floor: 1, Doc: "per-peer acquisition blocks (select without default)", Run: c18r5})
 	register(&Rule{ID: "C18.R6", Prop: "C18", Floor: 1, Doc: "peer insertion and inbound-cap comparison share one critical section", Run: c18r6})
 	register(&Rule{ID: "C18.R7", Prop: "C18", Floor: 3, Doc: "Close reaches ThreadGroup.Stop", Run: c18r7})
+	register(&Rule{ID: "C18.R9", Prop: "C18", Floor: 1, Doc: "goroutines registered in a function's local WaitGroup are waited for before every return that follows a registration", Run: c18r9})
 	register(&Rule{ID: "C18.R8", Prop: "C18", Floor: 1, Thorough: true, Doc: "lock order: acquired-while-held graph over the repository's mutexes is acyclic", Run: c18r8})
 }
 
@@ -1054,4 +1055,107 @@ func sameReceiver(f *ir.Func, call ir.Call) bool {
 	}
 	self := top.Info().Defs[top.Decl.Recv.List[0].Names[0]]
 	return f.ObjOf(rcv) == self
+}
+
+// c18r9: goroutines counted in a local sync.WaitGroup are awaited before the function returns. The workers of a sync
+// batch call into the chain manager; they are tracked only by that local group, so a return that skips Wait lets
+// Close (which waits for the thread group only) finish while they still run.
+func c18r9(c *Ctx) {
+	for _, pkg := range []string{"syncer"} {
+		for _, f := range c.P.Views(pkg, ir.ExpandOpt{Key: "all"}).Roots {
+			groups := map[types.Object]bool{}
+			wgCall := func(x ast.Node) (types.Object, string) {
+				ce, ok := x.(*ast.CallExpr)
+				if !ok {
+					return nil, ""
+				}
+				sel, ok := ast.Unparen(ce.Fun).(*ast.SelectorExpr)
+				if !ok {
+					return nil, ""
+				}
+				fn := f.Callee(ce)
+				if fn == nil || fn.Pkg() == nil || fn.Pkg().Path() != "sync" {
+					return nil, ""
+				}
+				recv := fn.Type().(*types.Signature).Recv()
+				if recv == nil || !ir.IsNamed(derefT(recv.Type()), "sync", "WaitGroup") {
+					return nil, ""
+				}
+				x0 := ast.Unparen(sel.X)
+				if u, ok := x0.(*ast.UnaryExpr); ok && u.Op == token.AND {
+					x0 = ast.Unparen(u.X)
+				}
+				obj := f.ObjOf(x0)
+				if v, ok := obj.(*types.Var); !ok || v.IsField() || v.Parent() == v.Pkg().Scope() {
+					return nil, "" // a group held in a field is owned by its type (threadgroup: C18.R4)
+				}
+				return obj, fn.Name()
+			}
+			ir.Walk(f.Body, true, func(x ast.Node) {
+				if obj, name := wgCall(x); obj != nil && (name == "Add" || name == "Go") {
+					groups[obj] = true
+				}
+			})
+			if len(groups) == 0 {
+				continue
+			}
+			g := f.Graph()
+			c.VisitGraph(f)
+			for wg := range groups {
+				wg := wg
+				ob := c.Ob(f, "local-group-awaited:"+wg.Name(), f.Body.Pos())
+				has := func(n *cfgx.Node, names ...string) bool {
+					if n.AST == nil {
+						return false
+					}
+					found := false
+					_, deferred := n.AST.(*ast.DeferStmt)
+					ir.Walk(n.AST, deferred, func(x ast.Node) {
+						if obj, name := wgCall(x); obj == wg {
+							for _, w := range names {
+								if w == name {
+									found = true
+								}
+							}
+						}
+					})
+					return found
+				}
+				var starts []*cfgx.Visit
+				for _, n := range g.Nodes {
+					if _, isGo := n.AST.(*ast.GoStmt); isGo {
+						continue // Add inside the goroutine body itself is not this function's registration
+					}
+					if has(n, "Add", "Go") {
+						for _, e := range n.Succs {
+							starts = append(starts, cfgx.StartAfter(e, 0))
+						}
+					}
+				}
+				if len(starts) == 0 {
+					ob.OK("registrations happen inside goroutine bodies only")
+					continue
+				}
+				reach := g.Reach(starts, func(n *cfgx.Node) bool { return has(n, "Wait") })
+				bad := false
+				for _, ret := range g.Returns() {
+					if v, ok := reach[ret]; ok {
+						ob.Bad(c.Witness(v), "the return at %s is reachable after goroutines were registered in the local WaitGroup %s without waiting for them: the function (and with it Close) can finish while its workers are still running inside the chain manager", c.P.Pos(ret.Pos()), wg.Name())
+						bad = true
+						break
+					}
+				}
+				if !bad {
+					ob.OK("every return after a registration passes Wait")
+				}
+			}
+		}
+	}
+}
+
+func derefT(t types.Type) types.Type {
+	if p, ok := t.(*types.Pointer); ok {
+		return p.Elem()
+	}
+	return t
 }
